@@ -16,7 +16,7 @@ from ..harness import qcall, snapshot, snapshot_diff
 
 ID = "C18"
 LEVEL = "exploration"
-BUDGET = {"quick": 1600, "thorough": 450000}
+BUDGET = {"quick": 4800, "thorough": 450000}
 TECHNIQUE = "property-based testing: captured stdout of the entry points parsed and compared with the header tables; pickle round trip against a fresh reader"
 RULE = ("Hypothesis-generated 2D/3D plotfiles (1-9 fields, odd and even counts, with / without Y(...) species, known "
         "PeleLMeX names and unknown names that are prefixes of each other or contain regex metacharacters, negative / "
@@ -48,7 +48,7 @@ def cases(draw, tier="quick"):
     fields = [POOL[i] for i in idx]
     if draw(st.sampled_from([False, False, True])):
         fields = [f for f in fields if not f.startswith("Y(")] or ["phi"]
-    spec = draw(plotgen.plot_specs(max_cells=1200 if tier == "quick" else 4000, fields=fields,
+    spec = draw(plotgen.plot_specs(thin=True, max_cells=1200 if tier == "quick" else 4000, fields=fields,
                                    payload_kinds=("random", "special", "sparse", "sparse")))
     spec["time"] = draw(st.sampled_from(TIMES))
     opts = draw(st.sampled_from([dict(), dict(min_max=True), dict(finest_lv=True), dict(min_max=True, finest_lv=True),
